@@ -725,7 +725,7 @@ func (x *xgen) leaf() int {
 		if x.r.Intn(4) == 0 { // the same spelling may occur as a number and as a string constant in one expression
 			return x.a.add(xnode{K: "const", Op: []string{"int", "quoted"}[x.r.Intn(2)], Text: fmt.Sprint(1 + x.r.Intn(3))})
 		}
-		return x.a.add(xnode{K: "const", Op: "int", Text: fmt.Sprint(x.nc)})
+		return x.a.add(xnode{K: "const", Op: "int", Text: fmt.Sprint(x.nc + 10*(x.nc%2))}) // (two digits every other time)
 	case v < 10:
 		return x.a.add(xnode{K: "const", Op: "float", Text: fmt.Sprintf("%d.5", x.nc)})
 	case v < 11:
